@@ -16,6 +16,21 @@ Open Scope N_scope.
 Definition matches7 (k : bytes * bytes) (a : json) : bool :=
   bytes_eqb (Abs.ev_type a) (fst k) && state_key_is a (snd k).
 
+(* the entries an AuthEvents provider HOLDS after the events were added in this order: the last
+   event of every (type, state_key); events without a state key are not taken *)
+Definition held7 (auths : list json) : list json :=
+  filter (fun a => match Abs.ev_state_key a with
+                   | Some sk => match find_auth (Abs.ev_type a) sk auths with
+                                | Some w => json_eqb w a
+                                | None => false
+                                end
+                   | None => false
+                   end) auths.
+
+(* AuthEvents.Valid(): the entries held are of one room (the provider counts entries per room:
+   an entry that was replaced no longer counts, repair F59) *)
+Definition valid9 (f : ver_flags) (auths : list json) : bool := one_room f (held7 auths).
+
 Definition slot (o : option json) : list json := match o with Some e => [e] | None => [] end.
 
 Section CheckerAuth.
@@ -52,7 +67,7 @@ Section CheckerAuth.
     let r := abs (sig_of e) f e auths in
     {| ai_flags := ai_flags r;
        ai_provider_ok := ai_provider_ok r;
-       ai_one_room := if guard then ai_one_room r else true;
+       ai_one_room := if guard then valid9 f auths else true;
        ai_kind := ai_kind r;
        ai_type := ai_type r;
        ai_room := ai_room r;
